@@ -41,6 +41,9 @@ CHECKS = {
     "C10": dict(engine="E1+E5", cat="model_checking",
                 technique="exhaustive enumeration of 8 scalars x 3 coercion directions x boundary-value universe on the real scalar objects and through a real engine; four algebraic laws checked on every triple against reference tables",
                 text="Every (scalar, direction, value) triple over 8 built-in scalars, result/input/literal directions and a 140-value boundary universe (0, +-1, +-2^31, +-2^53, huge ints, integral/non-integral floats, NaN, +-inf, denormals, numeric/blank/unicode strings, bools, containers, temporal strings and datetimes), on the scalar objects attached to a cooked schema and through echo fields of a real engine (resolver return, literal spelling, variable spelling). Laws: L1 result fails or yields the wire type denoting the same value; L2 input accepts exactly the spec kinds (reference tables in vf/model/coerce.py); L3 literal == variable; L4 idempotence and temporal round trips."),
+    "C11": dict(engine="E1+E5", cat="model_checking",
+                technique="explicit-state BFS over schema models (rewrite catalogue S at every site) x 4 ways of supplying the SDL x extend spelling; every model cooked by the real engine and its introspection answers compared with the expectation computed from the model",
+                text="5 seed models (kitchen sink, wrapper matrix, minimal, renamed roots, deprecations/nonIntrospectable) and every model within 1 (thorough 2) rewrite: add a type of each kind, wrap field types, arguments and input fields with defaults of every value kind (incl. strings needing escapes, null, lists, objects, enums), new implementers / union members, @deprecated with and without reason, @nonIntrospectable, custom directives with arguments and location sets, root changes. Each is supplied as string, file, list of files and directory tree (sub-directories, .sdl and .graphql), with and without `extend`. Compared: kinds, fields, args, wrapped types, default values (parsed back), enum values, interfaces, possible types, input fields, roots, directive definitions, deprecation flags/reasons, includeDeprecated true/false/default, hidden fields, __type(name:) for declared and near-miss unknown names, a nonIntrospectable schema."),
     "C14": dict(engine="E3+E5", cat="model_checking",
                 technique="exhaustive enumeration of all event sequences up to length L over a 4-letter payload alphabet x subscription documents, each driven through the real subscribe() on a hand-stepped loop under all orders of source production and resolver completion; per-event comparison with the reference executor",
                 text="7 subscription documents (plain, alias, fragment, literal / variable / defaulted argument, scalar root) x ALL event sequences of length <= 3 (85; thorough 4: 341) over {well-formed payload, payload provoking a nullable-field error, payload provoking a non-null error, None} x all schedules of the source's production points and the resolvers' suspension points (+ <= 1 mid-run injection); 6 refused requests (validation, syntax, variable coercion, operation selection); thorough: two concurrent streams under all interleavings. Oracle: exactly one response per event, in order, each equal to the reference execution of the selection against that event; the source is started once with the spec-coerced arguments and the stream ends exactly when it ends; refused requests yield one errors-only response and never start the source."),
